@@ -17,7 +17,7 @@ Definition cyc : state :=
      ("b", JObj [("deleteWith", JArr [JStr "a"])]);
      ("c", JObj [("deleteWith", JArr [JStr "b"])]);
      ("d", JObj [("x", JNum 1)])] [] pn_empty
-    [("a", JNull); ("b", JNull); ("c", JNull); ("d", JNull)] false O None false.
+    [("a", JNull); ("b", JNull); ("c", JNull); ("d", JNull)] false O None false [].
 Example c08_cycle :
   map fst (st_facts (fst (st_rem cyc "a" 100))) = ["d"] /\
   map fst (st_store (fst (st_rem cyc "a" 100))) = ["d"] /\
